@@ -93,6 +93,13 @@ def roundtrip(x, p):
                 x.assume(And(s[k] != 34, s[k] != 92, s[k] != 10,
                              s[k] != 13))
             code = [b'd="' + b'\x80' * 22000 + s + b'"' + nl, b'y=2' + nl]
+        elif kind == 'glyphdunder':
+            # a line inside a long string that is two underscores, glyph
+            # characters, two underscores: not a section header (those are
+            # ASCII words), so it is code like any other line
+            for k in range(n):
+                x.assume(s[k] >= 128)
+            code = [b'x=[[' + nl, b'__' + s + b'__' + nl, b']]' + nl]
         elif kind == 'dunder':
             # a code line that begins like a section header but is not one
             t = x.bytes('tail', 1)
@@ -230,6 +237,8 @@ HARNESSES = [
                    dict(Q, code='comment', ncode=1, crlf=True,
                         final_nl=False, maxver=8),
                    dict(Q, code='longline', ncode=1, maxver=8),
+                   dict(Q, code='glyphdunder', ncode=1, maxver=8),
+                   dict(Q, code='glyphdunder', ncode=2, maxver=8),
                    dict(Q, code='comment', ncode=1, eol='cr', maxver=8),
                    dict(Q, code='ident', ncode=1, eol='cr', maxver=8)],
             thorough=[dict(Q, code=c, ncode=2, maxver=8, _budget=1800)
